@@ -383,6 +383,39 @@ def standin_joint_tables(tier, seed):
                 elif key_res != ref:
                     violations.append(dict(key=f"joint table ({label}): the dataset depends on the row order", order=list(perm)))
                     break
+    # round trip of joint tables, event CODES included (0 = censored, k = the k-th competing event observed): table -> Data -> Dataset ->
+    # to_pandas / to_dataframe -> re-ingestion gives the same dataset
+    rt_rows = [("p-a", 62.0, 0.20, 0.30, 66.0, 1), ("p-b", 71.5, 0.40, nan, 75.0, 2), ("p-b", 70.0, 0.30, 0.35, 75.0, 2), ("p-c", 80.0, 0.60, 0.50, 83.5, 0),
+               ("p-a", 60.5, 0.10, 0.25, 66.0, 1), ("p-d", 55.0, nan, 0.15, 58.0, 2), ("p-c", 81.0, 0.65, 0.55, 83.5, 0), ("p-d", 56.5, 0.22, 0.18, 58.0, 2)]
+    for nb_ev, codes in ((1, {1: 1, 2: 1}), (2, {1: 1, 2: 2}), (3, {1: 3, 2: 2})):
+        tab = pd.DataFrame([(i, t, a, b, et, codes.get(c, 0)) for i, t, a, b, et, c in rt_rows], columns=["ID", "TIME", "Y0", "Y1", "EVENT_TIME", "EVENT_BOOL"])
+        want = tab.groupby("ID")["EVENT_BOOL"].first().to_dict()
+        label = f"round trip, {nb_ev} competing event type(s)"
+        evals += 1
+        distinct.add(("round trip", nb_ev))
+        try:
+            import warnings
+            with warnings.catch_warnings():
+                warnings.simplefilter("ignore")
+                fk_ = {"nb_events": nb_ev} if nb_ev > 1 else {}
+                data = Data.from_dataframe(tab, data_type="joint", factory_kws=dict(fk_)) if fk_ else Data.from_dataframe(tab, data_type="joint")
+                ds = Dataset(data)
+                exported = {"Dataset.to_pandas": ds.to_pandas().reset_index(), "Data.to_dataframe": data.to_dataframe().reset_index(drop=True)}
+                for how, back in exported.items():
+                    got = {k: int(v) for k, v in back.groupby("ID")["EVENT_BOOL"].first().items()}
+                    if got != want:
+                        violations.append(dict(key=f"joint table ({label}): {how} exports other event codes than the ones ingested", got=str(got), want=str(want)))
+                        continue
+                    ds2 = Dataset(Data.from_dataframe(back, data_type="joint", factory_kws=dict(fk_)) if fk_ else Data.from_dataframe(back, data_type="joint"))
+                    same = sorted(ds2.indices) == sorted(ds.indices)
+                    if same:
+                        o1, o2 = [ds.indices.index(i) for i in sorted(ds.indices)], [ds2.indices.index(i) for i in sorted(ds.indices)]
+                        same = bool((ds.event_bool[o1] == ds2.event_bool[o2]).all()) and bool(np.allclose(ds.event_time[o1].numpy(), ds2.event_time[o2].numpy())) and \
+                            bool(np.allclose(ds.values[o1].numpy(), ds2.values[o2].numpy())) and bool((ds.mask[o1] == ds2.mask[o2]).all())
+                    if not same:
+                        violations.append(dict(key=f"joint table ({label}): re-ingesting what {how} exported gives another dataset"))
+        except Exception as e:
+            violations.append(dict(key=f"joint table ({label}): a valid table cannot be exported and re-ingested: {type(e).__name__}: {str(e)[:100]}"))
     uniq = {v["key"]: v for v in violations}
     return dict(evaluations=evals, distinct_nontrivial=len(distinct), rule="one evaluation = one row order of one small joint table through Data.from_dataframe(data_type='joint') and Dataset",
                 samples=[dict(case=cases[0][0], rows=cases[0][1].values.tolist()[:3])], violations=list(uniq.values())[:60],
